@@ -119,6 +119,15 @@ def build_job(unit, job, c_path, workdir, small=False):
     if rc != 0:
         raise Undecided('goto-cc failed for %s: %s' % (name, out[-2000:]))
     kind = job.get('kind', 'enforce')
+    if job.get('pre_unwind') is not None:
+        # dfcc needs loop-free code wherever a loop has no contract: unwind before instrumenting
+        a2 = os.path.join(workdir, tag + '.u.gb')
+        gu = ['goto-instrument', '--unwind', str(job['pre_unwind']), '--unwinding-assertions', a, a2]
+        cmds.append(gu)
+        rc, out, _ = run(gu, 600, workdir)
+        if rc != 0:
+            raise Undecided('goto-instrument --unwind failed for %s: %s' % (name, out[-2000:]))
+        a = a2
     if kind in ('enforce', 'lemma'):
         gi = ['goto-instrument', '--dfcc', h]
         if kind == 'enforce':
@@ -214,8 +223,6 @@ def get_witness(unit, job, c_path, workdir, pid):
     except Undecided as e:
         return None, str(e)
     cmd = cbmc_cmd(job, binary, ['--property', pid, '--trace'])
-    if job.get('unwind') is None:
-        cmd += ['--unwind', str(max(30, 0)), ]   # only the WIT_BUF capture loop needs unwinding here
     rc, out, w = run(cmd, job.get('timeout', 300), workdir)
     try:
         data = json.loads(out)
@@ -413,7 +420,7 @@ def main():
             unk = [r for r in nfail if r['status'] != 'FAILURE']
             for r in nfail:
                 if r['status'] == 'FAILURE': failures.append((res, r))
-            if unk:
+            if unk and len(unk) == len(nfail):
                 undecided.append('%s.%s: %d obligations with status %s (first: %s)' % (res['unit'], res['job'], len(unk), unk[0]['status'], unk[0]['property']))
             for r in others[:0]: pass
             cls = {}
